@@ -111,6 +111,14 @@ type Finding struct {
 
 const verifDir = "/verif"
 
+// outDir is where evidence and replay files go (redirected for mutant runs).
+func outDir() string {
+	if d := os.Getenv("VERIF_OUT"); d != "" {
+		return d
+	}
+	return verifDir
+}
+
 var workers = 16
 
 func main() {
@@ -773,9 +781,9 @@ func (b *build) minimiseAndReplay(prop string, g *vgroup) (path string, ok bool,
 	} else {
 		rf.History = r0.Log
 	}
-	os.MkdirAll(filepath.Join(verifDir, "replays"), 0o755)
+	os.MkdirAll(filepath.Join(outDir(), "replays"), 0o755)
 	h := sha256.Sum256([]byte(g.v.Class + "|" + g.v.Sig))
-	path = filepath.Join(verifDir, "replays", fmt.Sprintf("%s-%s-%x-%d.json", prop, g.v.Class, h[:4], best.Seed))
+	path = filepath.Join(outDir(), "replays", fmt.Sprintf("%s-%s-%x-%d.json", prop, g.v.Class, h[:4], best.Seed))
 	js, _ := json.MarshalIndent(rf, "", " ")
 	os.WriteFile(path, js, 0o644)
 	ok = hasViolation(r0, g.v)
@@ -1169,7 +1177,7 @@ func writeEvidence(prop, tier string, seed uint64, meta *Meta, b *build, all []*
 		"wall_s":      wall.Seconds(),
 		"violations":  nviol,
 	}
-	os.MkdirAll(filepath.Join(verifDir, "evidence"), 0o755)
+	os.MkdirAll(filepath.Join(outDir(), "evidence"), 0o755)
 	js, _ := json.MarshalIndent(ev, "", " ")
-	os.WriteFile(filepath.Join(verifDir, "evidence", prop+".json"), js, 0o644)
+	os.WriteFile(filepath.Join(outDir(), "evidence", prop+".json"), js, 0o644)
 }
